@@ -251,8 +251,8 @@ package mcp
 // unconstrained dynamic types, so "any JSON type in any field" is decided for
 // the whole type lattice at once).
 
-//@ sweepscope[C06] kinds=typeassert,close,nilmap,index,div files=internal/httputil/accept.go,internal/sseutil/writer.go,internal/session/session.go,streamable_server.go,sse_server.go,stdio_server.go,handler.go,manager_tools.go,manager_prompt.go,manager_resource.go,manager_lifecycle.go,jsonrpc.go,mcp_types.go,responder_json.go,responder_sse.go,responder.go,session.go,server.go,notifier.go,mcp_notification.go,internal/session/session.go
-//@ sweepscope[C07] kinds=typeassert,close,nilmap,index,div files=internal/utils/json.go,streamable_client.go,sse_client.go,transport_stdio.go,client.go,stdio_client.go,utils_json.go,mcp_tools.go,mcp_prompts.go,mcp_resources.go,transport_http.go except=.With,.New
+//@ sweepscope[C06] kinds=typeassert,close,nilmap,index,div,hashkey files=internal/httputil/accept.go,internal/sseutil/writer.go,internal/session/session.go,streamable_server.go,sse_server.go,stdio_server.go,handler.go,manager_tools.go,manager_prompt.go,manager_resource.go,manager_lifecycle.go,jsonrpc.go,mcp_types.go,responder_json.go,responder_sse.go,responder.go,session.go,server.go,notifier.go,mcp_notification.go,internal/session/session.go
+//@ sweepscope[C07] kinds=typeassert,close,nilmap,index,div,hashkey files=internal/utils/json.go,streamable_client.go,sse_client.go,transport_stdio.go,client.go,stdio_client.go,utils_json.go,mcp_tools.go,mcp_prompts.go,mcp_resources.go,transport_http.go except=.With,.New
 
 // Maps that are created by the constructor and never reassigned: final fields,
 // non-nil by type invariant (assumed for objects built by their constructors;
@@ -511,7 +511,7 @@ package mcp
 //@ func httpServerHandler.handlePostRequest
 //@   requires status(w) == 0
 //@   before call (net/http.Header).Set#1 assert[C04 session-header-only-in-stateful-mode] !h.isStateless
-//@   modifies *, status(w), hval, handled, lastres, lasterr, cancels, gens, lastgen, lastgenw, errlogs
+//@   modifies *, status(w), hval, handled, lastres, lasterr, cancels, gens, lastgen, lastgenw, errlogs, responds
 //@   ensures[C03,C06] status(w) != 0
 //@ func httpServerHandler.handlePostNotification
 //@   requires status(w) == 0
@@ -567,8 +567,9 @@ package mcp
 //@   final[C04] isStateless
 
 //@ func httpServerHandler.respondEncodingFailure
-//@   modifies *, status(w), hval
+//@   modifies *, status(w), hval, responds
 //@   ensures[C03,C06 encoding-failure-is-answered] status(w) != 0
+//@   ensures[C01,C03 at-most-one-answer-per-request] responds <= old(responds) + 1
 
 // ---------------------------------------------------------------------------
 // C03 / C01 / C14 — what the method handlers answer
@@ -1452,4 +1453,48 @@ package mcp
 //@   before call newMCPHandler#1 assert[C14 default-protocol-version-is-the-same-on-every-server-kind] lifecycleManager.defaultProtocolVersion == ProtocolVersion_2025_03_26
 //@ func NewStdioServer
 //@   before call return#0 assert[C14 default-protocol-version-is-the-same-on-every-server-kind] lifecycleManager.defaultProtocolVersion == ProtocolVersion_2025_03_26
+//@
+// ---- fifth measurement round (ids -7): general facts behind the misses ----
+// C19 — every value of a multi-valued static header is added (Add, not Set), with the key it is configured under
+//@ func streamableHTTPClientTransport.send
+//@   before call (net/http.Header).Add#1 assert[C19 every-value-of-a-static-header-is-added-under-its-key] arg1 == key && arg2 == value
+//@ func streamableHTTPClientTransport.sendNotification
+//@   before call (net/http.Header).Add#1 assert[C19 every-value-of-a-static-header-is-added-under-its-key] arg1 == key && arg2 == value
+//@ func streamableHTTPClientTransport.connectGetSSE
+//@   before call (net/http.Header).Add#1 assert[C19 every-value-of-a-static-header-is-added-under-its-key] arg1 == key && arg2 == value
+//@ func streamableHTTPClientTransport.sendResponseToServer
+//@   before call (net/http.Header).Add#1 assert[C19 every-value-of-a-static-header-is-added-under-its-key] arg1 == key && arg2 == value
+//@ func streamableHTTPClientTransport.terminateSession
+//@   before call (net/http.Header).Add#1 assert[C19 every-value-of-a-static-header-is-added-under-its-key] arg1 == key && arg2 == value
+//@ func sseClientTransport.start
+//@   before call (net/http.Header).Add#1 assert[C19 every-value-of-a-static-header-is-added-under-its-key] arg1 == key && arg2 == value
+//@ func sseClientTransport.sendRequestInternal
+//@   before call (net/http.Header).Add#1 assert[C19 every-value-of-a-static-header-is-added-under-its-key] arg1 == key && arg2 == value
+//@ func sseClientTransport.sendNotification
+//@   before call (net/http.Header).Add#1 assert[C19 every-value-of-a-static-header-is-added-under-its-key] arg1 == key && arg2 == value
+//@ func sseClientTransport.sendResponseMessage
+//@   before call (net/http.Header).Add#1 assert[C19 every-value-of-a-static-header-is-added-under-its-key] arg1 == key && arg2 == value
+//@
+// C01 / C03 — one answer per request: at most one answer is successfully written per POSTed request (a second attempt
+// happens only after a failed one, to report the encoding failure), and on legacy SSE
+// a handler's error object is never also wrapped as a success
+//@ ghost stable responds int
+//@ func responder.respond
+//@   counted responds when result == nil
+//@ func jsonResponder.respond
+//@   counted responds when result == nil
+//@ func sseResponder.respond
+//@   counted responds when result == nil
+//@ func httpServerHandler.handlePostRequest
+//@   ensures[C01,C03 at-most-one-answer-per-request] responds <= old(responds) + 1
+//@ func SSEServer.processRequestAsync
+//@   before call sendSuccessResponse#0 assert[C03,C01 an-error-object-is-never-wrapped-as-a-success] !istype(lastres, *JSONRPCError)
+//@
+// C02 — what a user handler returned is not modified on its way out
+//@ func resourceManager.handleReadResource
+//@   sweep[C02] handlerresultro
+//@ func promptManager.handleGetPrompt
+//@   sweep[C02] handlerresultro
+//@ func toolManager.handleCallTool
+//@   sweep[C02] handlerresultro
 //@
